@@ -39,10 +39,13 @@ func ruleClose1(c *Ctx) {
 			// (1) inside sync.Once.Do
 			if f.Lit != nil {
 				if par, ok := p.Parent(f.Lit).(*ast.CallExpr); ok {
-					if pf := p.EnclosingFunc(par); pf != nil && p.CalleeName(pf, par) == "sync.Once.Do" {
-						onceN++
-						c.R.Hold("R-CLOSE1", p.Pos(call), f.Name, construct, "inside sync.Once.Do", true)
-						continue
+					if pf := p.EnclosingFunc(par); pf != nil {
+						switch nm := p.CalleeName(pf, par); nm {
+						case "sync.Once.Do", "sync.OnceFunc", "sync.OnceValue", "sync.OnceValues":
+							onceN++
+							c.R.Hold("R-CLOSE1", p.Pos(call), f.Name, construct, "inside "+nm, true)
+							continue
+						}
 					}
 				}
 			}
